@@ -20,12 +20,28 @@ Definition obs_diag (m : nodes) (d : diag) : tuple :=
   | DCycle (l, c) cyc => 3 :: l :: c :: map (fun v => fst (pos_of m v)) cyc
   end.
 
-Definition obs (jobs : list job) (ord : list string) : list tuple :=
-  match run jobs ord with
-  | Done ds => map (obs_diag (table jobs)) ds
+(* observable of VisitWorkflowPost on a table, after the diagnostics [pre] of VisitJobPre *)
+Definition obs_table (pre : list diag) (m : nodes) (ord : list string) : list tuple :=
+  match workflow_post m ord with
+  | Done ds2 => map (obs_diag m) (pre ++ ds2)
   | OutOfFuel => [[98]]
   | Panic => [[99]]
   end.
+
+Definition obs (jobs : list job) (ord : list string) : list tuple :=
+  let (pre, m) := collect_jobs [] jobs in obs_table pre m ord.
+
+(* [obs] is the projection of [run] *)
+Lemma obs_run jobs ord :
+  obs jobs ord = match run jobs ord with
+                 | Done ds => map (obs_diag (table jobs)) ds
+                 | OutOfFuel => [[98]]
+                 | Panic => [[99]]
+                 end.
+Proof.
+  unfold obs, run, table, obs_table. destruct (collect_jobs [] jobs) as [pre m]. cbn [snd].
+  destruct (workflow_post m ord); reflexivity.
+Qed.
 
 Definition class_of (t : tuple) : tuple :=
   match t with
@@ -50,8 +66,9 @@ Definition kcase := (list job * list (list string) * list (list tuple))%type.
 
 Definition k_check (c : kcase) : bool :=
   let '(jobs, ords0, impl) := c in
-  let ords := match ords0 with [] => perms (keys (table jobs)) | _ => ords0 end in
-  let outs := map (obs jobs) ords in
+  let (pre, m) := collect_jobs [] jobs in           (* VisitJobPre does not depend on [ord] *)
+  let ords := match ords0 with [] => perms (keys m) | _ => ords0 end in
+  let outs := map (obs_table pre m) ords in         (* = map (obs jobs) ords *)
   forallb (fun o => existsb (fun x => same_set x o || same_set (map class_of x) o) outs) impl
   && match impl with
      | [] => false
